@@ -213,7 +213,7 @@ def gpa(F, ob, cfg):
     from menpo.transform import AlignmentSimilarity, GeneralizedProcrustesAnalysis
 
     log = []
-    lapack.install_rotation_oracle(F, log)
+    lapack.install_rotation_oracle(F, log, rational=True)
     if F.sym:
         # the convergence measure |target - new mean| is over-approximated by an unconstrained non-negative
         # value, so that "converged" and "not converged" are both explored at every iteration
